@@ -22,6 +22,7 @@ import (
 	"io"
 	"io/ioutil"
 	"log"
+	"math"
 	"net"
 	"net/http"
 	"net/textproto"
@@ -400,6 +401,12 @@ func parseBlock(c *casketfile.Dispenser, u *staticUpstream, hasSrv bool) error {
 		}
 		if n < 1 {
 			return c.Err("max_fails must be at least 1")
+		}
+		if n > math.MaxInt32 {
+			// (the counter has 32 bits: a larger value would wrap
+			// around, 4294967296 to 0, with every backend down from
+			// the start; nobody reaches this many failures either way)
+			n = math.MaxInt32
 		}
 		u.MaxFails = int32(n)
 	case "try_duration":
